@@ -16,11 +16,16 @@ import (
 // path), mixed with honest answers. The adversarial grammar lives here; the oracle is the
 // independent std-lib verifier in monitors.go (monStores / monOKHeaders).
 
+// claim-type productions: otherwise valid, honestly signed tokens whose claims have unexpected types
+var typeProductions = []string{"nonce-number", "nonce-array", "nonce-object", "nonce-null", "nonce-bool", "aud-number", "aud-object", "aud-mixed-array",
+	"exp-string", "exp-huge", "exp-negative", "iat-object", "claims-array", "header-array", "header-crit"}
+
 var byzProductions = []string{
 	"alg-none", "alg-none-caps", "hs256-pubkey-jwk", "hs256-pubkey-pem", "foreign-key-same-kid", "foreign-key-other-kid", "foreign-key-no-kid",
 	"tampered-payload", "tampered-signature", "stripped-signature", "extra-dots", "two-parts", "jws-json", "nested", "empty", "garbage", "whitespace",
 	"aud-absent", "aud-foreign", "aud-near-miss", "aud-array-without", "aud-substring",
 	"nonce-absent", "nonce-foreign", "nonce-empty", "nonce-previous", "other-session-token", "wrong-idp-key",
+	"nonce-number", "nonce-array", "nonce-object", "nonce-null", "nonce-bool",
 }
 
 // productions whose token is honestly signed and acceptable on the refresh path (nonce is only
@@ -157,6 +162,60 @@ func byzantineAnswer(p *IdP, ans map[string]any, ch *chainRec, login bool) {
 		c := clone()
 		c["nonce"] = prev
 		forged = signed(c)
+	case "nonce-number":
+		c := clone()
+		c["nonce"] = 12345
+		forged = signed(c)
+	case "nonce-array":
+		c := clone()
+		c["nonce"] = []string{fmt.Sprint(claims["nonce"])}
+		forged = signed(c)
+	case "nonce-object":
+		c := clone()
+		c["nonce"] = map[string]any{"v": claims["nonce"]}
+		forged = signed(c)
+	case "nonce-null":
+		c := clone()
+		c["nonce"] = nil
+		forged = signed(c)
+	case "nonce-bool":
+		c := clone()
+		c["nonce"] = true
+		forged = signed(c)
+	case "aud-number":
+		c := clone()
+		c["aud"] = 42
+		forged = signed(c)
+	case "aud-object":
+		c := clone()
+		c["aud"] = map[string]any{"x": p.ClientID}
+		forged = signed(c)
+	case "aud-mixed-array":
+		c := clone()
+		c["aud"] = []any{1, nil, p.ClientID, map[string]any{}}
+		forged = signed(c)
+	case "exp-string":
+		c := clone()
+		c["exp"] = "tomorrow"
+		forged = signed(c)
+	case "exp-huge":
+		c := clone()
+		c["exp"] = 1e300
+		forged = signed(c)
+	case "exp-negative":
+		c := clone()
+		c["exp"] = -1
+		forged = signed(c)
+	case "iat-object":
+		c := clone()
+		c["iat"] = map[string]any{}
+		forged = signed(c)
+	case "claims-array":
+		forged = parts[0] + "." + b64([]byte("[1,2,3]")) + "." + parts[2]
+	case "header-array":
+		forged = b64([]byte("[]")) + "." + parts[1] + "." + parts[2]
+	case "header-crit":
+		forged = SignJWT(key, map[string]any{"crit": []string{"exp"}, "exp": 1, "jwk": map[string]any{"kty": "oct"}}, claims)
 	case "other-session-token":
 		other := ""
 		for _, o := range p.chains {
